@@ -102,6 +102,34 @@ example : (FeId.kernInstance [(wght, 0)]).printable := by
   subst he
   decide
 
+/-! ## file names stay inside their directory -/
+
+/-- `string_to_filename` never produces a path separator (the suffix aside), so glyph and anchor
+    files land in `glyph_ir/`, `anchor_ir/`, `glyphs/` whatever the glyph is called. -/
+theorem stf_no_path_separator (n suffix : List Nat) (hs : 0x2F ∉ suffix) :
+    0x2F ∉ stringToFilename n suffix :=
+  stf_no_slash n suffix hs
+
+/-- The property for kerning instances: the file is directly in the build directory. -/
+def KernFileFlat : Prop := ∀ l : Loc, l.printable → 0x2F ∉ kernFileName l
+
+/-- It holds when no axis tag contains '/' … -/
+theorem kern_file_flat_partial (l : Loc) (p : l.printable) (hn : ∀ e ∈ l, e.1.noSlash) :
+    0x2F ∉ kernFileName l :=
+  kernFileName_no_slash l p hn
+
+/-- … and fails otherwise: the tag is copied into the name unescaped, axis tag `a/b ` (legal in
+    OpenType and accepted by `Tag::from_str`) asks for a file inside a directory `kern_a` that nobody
+    creates; with `--emit-ir` the build then dies in `File::create`. -/
+theorem kern_file_flat_counterexample : ¬ KernFileFlat := by
+  intro h
+  have := h [(⟨0x61, 0x2F, 0x62, 0x20⟩, 0)] (by intro e he; simp at he; subst he; decide)
+  revert this
+  decide +kernel
+
+example : kernFileName [(⟨0x61, 0x2F, 0x62, 0x20⟩, 0)] = lit "kern_a/b _0.00.yml" := by decide +kernel
+example : wght.noSlash := by unfold Tag.noSlash; decide
+
 /-! ## BE ids (`fontbe::paths::Paths::target_file`) -/
 
 /-- Distinct BE work ids are written to distinct files. -/
